@@ -31,7 +31,7 @@ CHECKS = {
          'CMAP well-formedness as written by the harness; md >= r1 as the property states'),
  'C08': ('differential monitor over four executions per input (all output modes) with writer-row classification',
          'the same input is run in best/separate/joined/all; file equalities, AlignedRest flags, partition of single-pass records, join eligibility (reference, strand, gap <= maxDifference incl. 0), subset and union clauses are checked from the file text',
-         'finding join-first-segments-only is classified from the parts\' segments and reported as KNOWN-FINDING'),
+         'finding join-overlap-resolved-by-trimming (the parts overlap and every missing pair lies in the overlapping stretch) is reported as KNOWN-FINDING; any other joined != union is a violation'),
  'C09': ('schedule perturbation: real CLI subprocesses with -c 1..16, repetitions, hash seeds, and in-worker seeded sleeps; byte comparison',
          'each input is executed 9 (quick) / 17 (thorough) times with different worker counts, PYTHONHASHSEED values and in-worker jitter that reorders completion; all files must be byte-identical apart from the argument echo; distinct completion orders are measured from worker-side logs',
          'jitter Extensions only sleep/log at existing dispatch points; same machine and input paths'),
